@@ -3,6 +3,7 @@ package main
 // bitword (C08), bitstr (C09), sigbits (C16, C17).
 
 import (
+	"strings"
 	"math/rand"
 	"sort"
 
@@ -66,14 +67,24 @@ func execBWFD(in In, em *Emitter) {
 	n := in.Int("n")
 	wl := toList(in.get("windows"))
 	fd := make([]int64, len(wl))
+	fda := make([]int64, len(wl))
+	// the same values, sharing memory where the values allow it: a prefix is a substring of the longer string
+	aa, ab := a, b
+	switch {
+	case strings.HasPrefix(a, b):
+		ab = a[:len(b)]
+	case strings.HasPrefix(b, a):
+		aa = b[:len(a)]
+	}
 	abn := guard(func() {
 		bw := bitword.BitWord[n]
 		for j, x := range wl {
 			fe := toIs(x)
 			fd[j] = num(int64(bw.FirstDiff(a, b, int(fe[0]), int(fe[1]))))
+			fda[j] = num(int64(bw.FirstDiff(aa, ab, int(fe[0]), int(fe[1]))))
 		}
 	})
-	o := J{"fd": fd}
+	o := J{"fd": fd, "fda": fda}
 	if abn != "" {
 		o = J{}
 	}
@@ -245,11 +256,21 @@ func execBSCmp(in In, em *Emitter) {
 			lens[i] = num(int64(bitstr.Len(enc[i])))
 		}
 		cmp := make([]int64, len(pairs))
+		cmpa := make([]int64, len(pairs))
 		for j, x := range pairs {
 			ab := toIs(x)
-			cmp[j] = num(int64(bitstr.Cmp(enc[ab[0]], enc[ab[1]])))
+			a, b := enc[ab[0]], enc[ab[1]]
+			cmp[j] = num(int64(bitstr.Cmp(a, b)))
+			// the same values sharing memory where they allow it (one a prefix of the other): same answer
+			switch {
+			case len(a) <= len(b) && string(b[:len(a)]) == string(a):
+				a = b[:len(a):len(a)]
+			case len(b) < len(a) && string(a[:len(b)]) == string(b):
+				b = a[:len(b):len(b)]
+			}
+			cmpa[j] = num(int64(bitstr.Cmp(a, b)))
 		}
-		o = J{"lens": lens, "cmp": cmp}
+		o = J{"lens": lens, "cmp": cmp, "cmpa": cmpa}
 	})
 	em.Emit("bscmp", J{"in": in.m, "out": o, "abn": abn})
 	em.Calls(2*len(items) + len(pairs))
